@@ -103,7 +103,7 @@ impl<C: KeyColl> FaultExec for KeyExec<C> {
     fn state_hash(&self) -> u64 {
         let mut h = 0;
         for e in &self.model {
-            h ^= mix(e.0 as u64, (e.1 - self.t_last.max(-1000)) as u64);
+            h ^= mix(e.0 as u64, e.1.wrapping_sub(self.t_last.max(-1000)) as u64);
         }
         h
     }
@@ -243,6 +243,12 @@ fn mk_viol<X: FaultExec>(sig: String, msg: String, ctor: &str, ops: &[X::Op], up
 
 /// enumerate every injection point of one history; `only_inject` restricts to one (replay)
 pub fn fault_history<X: FaultExec>(ctor: &str, ops: &[X::Op], rep: &mut Report, hist: u64, only_inject: Option<(usize, u64)>) {
+    fault_history_from::<X>(ctor, ops, rep, hist, only_inject, 0)
+}
+
+/// as `fault_history`, but injection points are enumerated only for operations at index >=
+/// `from_op` (the earlier ones are just the path to the state of interest)
+pub fn fault_history_from<X: FaultExec>(ctor: &str, ops: &[X::Op], rep: &mut Report, hist: u64, only_inject: Option<(usize, u64)>, from_op: usize) {
     let base_live = cb::ledger_live();
     let mut scratch = Report::new(); // quiet prefix runs must not inflate the evidence counters
     let mut cur: X = X::fresh(ctor);
@@ -270,7 +276,7 @@ pub fn fault_history<X: FaultExec>(ctor: &str, ops: &[X::Op], rep: &mut Report, 
             rep.note(format!("fault: reference run failed: {} {}", f.sig, f.msg));
             return;
         }
-        let n = cb::count();
+        let n = if i < from_op && only_inject.is_none() { 0 } else { cb::count() };
         let book_after = after.book();
         let mut book_before = book_before;
         X::align_time(&mut book_before, &book_after);
@@ -395,7 +401,10 @@ pub fn history_for(cfg: &Cfg, h: u64) -> (&'static str, String, Vec<String>) {
     let len = cfg.num("len", 18) as usize;
     match coll {
         "KeyExpTree" | "KeyExpList" => {
-            let mut p = key::profiles(false)[(h / 7 % 4) as usize].clone();
+            let kp = key::profiles(false);
+            // tiny-dense, small-coincidence, stall-clock, fast-clock and the two extreme-clock profiles
+            let pick = [0usize, 1, 2, 3, kp.len() - 3, kp.len() - 2][(h / 7 % 6) as usize];
+            let mut p = kp[pick].clone();
             p.len = len;
             p.u = p.u.min(7);
             p.sweep_every = 0;
